@@ -459,20 +459,27 @@ func (s *MemoryStore) planDropOldestLocked(needed int) ([]string, error) {
 		return nil, ErrQueueFull
 	}
 	var victims []string
-	for _, id := range s.order {
-		if !full() {
-			break
+	for full() {
+		// Oldest queued by received_at (as the SQLite backend does); the
+		// append-only order log only breaks ties, because it can hold a stale
+		// earlier position for an id that was removed and enqueued again.
+		oldest := ""
+		var oldestAt time.Time
+		for _, id := range s.order {
+			env := s.items[id]
+			if env == nil || env.State != StateQueued || containsID(victims, id) {
+				continue
+			}
+			if oldest == "" || env.ReceivedAt.Before(oldestAt) {
+				oldest, oldestAt = id, env.ReceivedAt
+			}
 		}
-		env := s.items[id]
-		if env == nil || env.State != StateQueued || containsID(victims, id) {
-			continue
+		if oldest == "" {
+			return nil, ErrQueueFull
 		}
-		victims = append(victims, id)
+		victims = append(victims, oldest)
 		activeCount--
 		activeDeliveredCount--
-	}
-	if full() {
-		return nil, ErrQueueFull
 	}
 	return victims, nil
 }
